@@ -4,6 +4,7 @@ import (
 	"fmt"
 	"go/token"
 	"go/types"
+	"os"
 	"sort"
 	"strings"
 
@@ -133,7 +134,7 @@ func ruleWrapCallsOnce(c *chk.Ctx) {
 			return
 		}
 		switch {
-		case sig.Params().Len() == 2 && sig.Results().Len() == 2 && strings.Contains(sig.Results().At(0).Type().String(), "reflect.Value"):
+		case isInputDecoderSig(sig):
 			decodeIn = call
 		case sig.Params().Len() == 1 && sig.Results().Len() == 1 && strings.Contains(sig.Results().At(0).Type().String(), "reflect.Value"):
 			reflCall = call
@@ -147,7 +148,30 @@ func ruleWrapCallsOnce(c *chk.Ctx) {
 	}
 	sameErr := func(v ssa.Value) bool { return ir.IsExtractOf(v, decodeIn, 1) }
 	callArg := reflCall.Call.Args[len(reflCall.Call.Args)-1]
-	okGuard := ir.ProvesNil(ir.CondsAt(reflCall.Block()), sameErr) && ir.IsExtractOf(ir.NormCell(callArg), decodeIn, 0) && !ir.InCycle(reflCall.Block())
+	givenDecoded := ir.IsExtractOf(ir.NormCell(callArg), decodeIn, 0)
+	if !givenDecoded {
+		// (a decoder that yields the one argument value: the list is assembled here around it)
+		if vals, known := c.P.ElementValues(callArg); known {
+			for _, v := range vals {
+				if ir.IsExtractOf(ir.NormCell(v), decodeIn, 0) {
+					givenDecoded = true
+				}
+			}
+		}
+	}
+	okGuard := ir.ProvesNil(ir.CondsAt(reflCall.Block()), sameErr) && givenDecoded && !ir.InCycle(reflCall.Block())
+	// (exactly: the decoder is consulted unconditionally, and nothing but its verdict stands
+	// between it and the call — a guard on the context, say, would add a third outcome)
+	if len(ir.CondsAt(decodeIn.Block())) != 0 {
+		okGuard = false
+	}
+	for _, cd := range ir.CondsAt(reflCall.Block()) {
+		if x, _, isNC := ir.NilCompare(cd.V); !isNC || !sameErr(x) {
+			if _, isFlag := captureOnlyCond(cd.V); !isFlag {
+				okGuard = false
+			}
+		}
+	}
 	c.Check(okGuard, "PAIR.wrap", h, "function called exactly on successful decoding", reflCall.Pos(), "the reflective call is reached exactly on the input decoder's err == nil edge, with the decoder's values, outside any loop", "the wrapped function can be called although decoding its argument failed (or is not given the decoded values)")
 	// the error edge returns that error without calling
 	okErr := false
@@ -230,7 +254,7 @@ func ruleWrapCallsOnce(c *chk.Ctx) {
 	ip, _ := pkgConstInt(c.M.Pkg, "InvalidParams")
 	for _, g := range handedOut(c, wrap) {
 		sig := g.Signature
-		if sig.Params().Len() != 2 || sig.Results().Len() != 2 || !strings.Contains(sig.Results().At(0).Type().String(), "reflect.Value") {
+		if !isInputDecoderSig(sig) {
 			continue
 		}
 		for _, r := range ir.Returns(g) {
@@ -295,6 +319,21 @@ func ruleWrapCallsOnce(c *chk.Ctx) {
 		}
 	}
 	c.Floor("PAIR.wrap", 6, "guard, error edge, pass-through, output decoders, refusal returns")
+}
+
+// isInputDecoderSig: the shape of Wrap's input decoders: given the request
+// (possibly with the context value), they yield the argument value(s) for the
+// reflective call and an error.
+func isInputDecoderSig(sig *types.Signature) bool {
+	if sig == nil || sig.Results().Len() != 2 || !strings.Contains(sig.Results().At(0).Type().String(), "reflect.Value") {
+		return false
+	}
+	for i := 0; i < sig.Params().Len(); i++ {
+		if strings.HasSuffix(sig.Params().At(i).Type().String(), "jrpc2.Request") {
+			return true
+		}
+	}
+	return false
 }
 
 // strictField is the FuncInfo option the exported setter SetStrict stores.
@@ -667,20 +706,75 @@ func ruleExactLength(c *chk.Ctx) {
 				continue // "not an array" passthrough before the parse
 			}
 			n++
+			// a length, or a helper's parameter that is given a length at every call
+			isLen := func(v ssa.Value) bool {
+				if _, ok := ir.LenOf(v); ok {
+					return true
+				}
+				par, isPar := v.(*ssa.Parameter)
+				if !isPar || ir.Exported(par.Parent()) {
+					return false
+				}
+				idx := -1
+				for i, q := range par.Parent().Params {
+					if q == par {
+						idx = i
+					}
+				}
+				sites := c.P.Callers(par.Parent())
+				if idx < 0 || len(sites) == 0 {
+					return false
+				}
+				for _, cs := range sites {
+					args := cs.Instr.Common().Args
+					if idx >= len(args) {
+						return false
+					}
+					if _, ok := ir.LenOf(args[idx]); !ok {
+						return false
+					}
+				}
+				return true
+			}
 			isLenEq := func(cd ir.Cond) bool {
 				x, y, op, ok := ir.Rel(cd)
 				if !ok || op != token.EQL {
 					return false
 				}
-				_, l1 := ir.LenOf(x)
-				_, l2 := ir.LenOf(y)
-				return l1 && l2
+				return isLen(x) && isLen(y)
 			}
 			eq := false
 			for _, cd := range ir.CondsAt(r.Block()) {
 				if isLenEq(cd) {
 					eq = true
 				}
+			}
+			if !eq {
+				// the test may be made by a private helper (`if err := checkLen(len(arr)); err != nil`):
+				// every way the helper lets the caller go on passes the equality
+				alts := expandPredicateHelpers(c, ir.CondsAt(r.Block()), 0)
+				if os.Getenv("JRPCVET_DEBUG") != "" {
+					for _, alt := range alts {
+						fmt.Fprintf(os.Stderr, "PAIR.length %s alt:", ir.Name(f))
+						for _, cd := range alt {
+							fmt.Fprintf(os.Stderr, " [%v=%v]", cd.V, cd.Truth)
+						}
+						fmt.Fprintln(os.Stderr)
+					}
+				}
+				all := len(alts) > 0
+				for _, alt := range alts {
+					has := false
+					for _, cd := range alt {
+						if isLenEq(cd) {
+							has = true
+						}
+					}
+					if !has {
+						all = false
+					}
+				}
+				eq = all
 			}
 			if !eq && parse.Parent() == f {
 				// the length test may feed a shared error variable (`if err == nil && len… { err = … }`
@@ -706,6 +800,118 @@ func ruleExactLength(c *chk.Ctx) {
 				eq = okWalk && all && some
 			}
 			c.Check(eq, "PAIR.length", f, "success only for the exact length", r.Pos(), "a successful return after the array parse is governed by len(got) == len(want)", "a successful return after the array parse is not governed by the length equality: an array of the wrong length (e.g. empty) would be accepted")
+		}
+		if n == 0 {
+			// one shared exit returning an error variable: each way the variable is nil there is a
+			// successful return, under the outcomes of its edge
+			seenPhi := map[*ssa.Phi]bool{}
+			okAll := true
+			var expand func(v ssa.Value, conds []ir.Cond, depth int)
+			expand = func(v ssa.Value, conds []ir.Cond, depth int) {
+				if phi, isPhi := v.(*ssa.Phi); isPhi && depth < 6 {
+					if seenPhi[phi] {
+						return
+					}
+					seenPhi[phi] = true
+					for i, e := range phi.Edges {
+						pred := phi.Block().Preds[i]
+						expand(e, append(append([]ir.Cond{}, ir.CondsAt(pred)...), ir.EdgeConds(pred, phi.Block())...), depth+1)
+					}
+					return
+				}
+				knownNil := ir.IsNilConst(v)
+				for _, cd := range conds {
+					// (an error value tested nil on the way: `err := parse(); if err != nil {…} else {…}`)
+					if x, isEq, isCmp := ir.NilCompare(cd.V); isCmp && x == v && isEq == cd.Truth {
+						knownNil = true
+					}
+				}
+				if !knownNil {
+					return
+				}
+				n++
+				has := false
+				for _, cd := range conds {
+					if x, y, op, ok := ir.Rel(cd); ok && op == token.EQL {
+						_, l1 := ir.LenOf(x)
+						_, l2 := ir.LenOf(y)
+						if l1 && l2 {
+							has = true
+						}
+					}
+				}
+				if !has {
+					okAll = false
+				}
+			}
+			for _, r := range ir.Returns(f) {
+				if ir.InstrDominates(parse, r) && len(r.Results) > 0 {
+					expand(ir.ReturnResult(r, len(r.Results)-1), ir.CondsAt(r.Block()), 0)
+				}
+			}
+			// an error variable carried round a loop: once it is non-nil the loop is left (otherwise a
+			// later element's success would overwrite an earlier element's failure)
+			for phi := range seenPhi {
+				if !ir.InCycle(phi.Block()) {
+					continue
+				}
+				carriesFailure := false
+				for _, e := range phi.Edges {
+					if _, isPhi := e.(*ssa.Phi); !isPhi && !ir.IsNilConst(e) {
+						carriesFailure = true
+					}
+				}
+				if !carriesFailure {
+					continue
+				}
+				visiting := map[*ssa.Phi]bool{}
+				var leavesPhi func(p *ssa.Phi, depth int) bool
+				leavesPhi = func(p *ssa.Phi, depth int) bool {
+					if depth > 4 {
+						return false
+					}
+					for _, b := range f.Blocks {
+						if len(b.Instrs) == 0 || !ir.InCycle(b) {
+							continue
+						}
+						iff, isIf := b.Instrs[len(b.Instrs)-1].(*ssa.If)
+						if !isIf {
+							continue
+						}
+						x, eq, isCmp := ir.NilCompare(iff.Cond)
+						if !isCmp || x != ssa.Value(p) {
+							continue
+						}
+						nonNilSucc := b.Succs[0]
+						if eq {
+							nonNilSucc = b.Succs[1]
+						}
+						if !reachesWithout(nonNilSucc, p.Block(), nil) && nonNilSucc != p.Block() {
+							return true
+						}
+					}
+					// or the value only flows on into a variable that is tested that way (the join at
+					// the end of the loop body feeding the loop header)
+					refs := p.Referrers()
+					if refs == nil {
+						return false
+					}
+					visiting[p] = true
+					defer delete(visiting, p)
+					for _, r := range *refs {
+						if x, isPhi := r.(*ssa.Phi); isPhi && !visiting[x] && ir.InCycle(x.Block()) && leavesPhi(x, depth+1) {
+							return true
+						}
+					}
+					return false
+				}
+				if !leavesPhi(phi, 0) {
+					okAll = false
+				}
+			}
+			if n > 0 {
+				c.Check(okAll, "PAIR.length", f, "success only for the exact length", f.Pos(), "every way the shared exit reports success is governed by len(got) == len(want)", "a successful return after the array parse is not governed by the length equality: an array of the wrong length (e.g. empty) would be accepted")
+			}
 		}
 		if n == 0 {
 			c.Undecided("PAIR.length", f, "success returns", f.Pos(), "no successful return after the array parse")
@@ -789,7 +995,17 @@ func rulePositional(c *chk.Ctx) {
 	})
 	okArity := false
 	if so != nil {
-		for _, cd := range ir.CondsAt(so.Block()) {
+		// (the test may sit in the only caller of the struct-building helper)
+		conds := ir.CondsAt(so.Block())
+		for g, n := mat, 0; n < 3; n++ {
+			site, sole := c.P.SoleCaller(g)
+			if !sole {
+				break
+			}
+			conds = append(conds, ir.CondsAt(site.Instr.Block())...)
+			g = site.Caller
+		}
+		for _, cd := range conds {
 			if bo, ok := cd.V.(*ssa.BinOp); ok && bo.Op == token.NEQ && !cd.Truth {
 				_, l2 := ir.LenOf(bo.Y)
 				_, l1 := ir.LenOf(bo.X)
@@ -1047,6 +1263,9 @@ func ruleDecodeTargets(c *chk.Ctx) {
 				continue
 			}
 			vals, _ := c.P.ElementValues(ir.ReturnResult(r, 0))
+			if _, isSlice := ir.ReturnResult(r, 0).Type().Underlying().(*types.Slice); !isSlice {
+				vals = []ssa.Value{ir.ReturnResult(r, 0)} // the one argument value itself
+			}
 			for _, v := range vals {
 				v = ir.NormCell(v)
 				if v == nw {
@@ -1129,6 +1348,38 @@ func ruleStubsKeepStrictness(c *chk.Ctx) {
 			n++
 			guarded := false
 			for _, cd := range ir.CondsAt(call.Block()) {
+				// (the assertion may sit in a one-line predicate given the target)
+				if pc, isCall := cd.V.(*ssa.Call); isCall && !cd.Truth && len(pc.Call.Args) == 1 {
+					if h := pc.Call.StaticCallee(); h != nil && c.P.InRepo[h] && !ir.Exported(h) && len(h.Params) == 1 {
+						arg := pc.Call.Args[0]
+						if mi, isMI := arg.(*ssa.MakeInterface); isMI {
+							arg = mi.X
+						}
+						if _, fv, isF := ir.FieldRead(arg); isF && fv == target {
+							all := len(ir.Returns(h)) > 0
+							for _, r := range ir.Returns(h) {
+								good := false
+								if e, isE := ir.ReturnResult(r, 0).(*ssa.Extract); isE && e.Index == 1 {
+									if ta, isTA := e.Tuple.(*ssa.TypeAssert); isTA && ta.X == ssa.Value(h.Params[0]) {
+										if iface, isI := ta.AssertedType.Underlying().(*types.Interface); isI {
+											for i := 0; i < iface.NumMethods(); i++ {
+												if iface.Method(i).Name() == "DisallowUnknownFields" {
+													good = true
+												}
+											}
+										}
+									}
+								}
+								if !good {
+									all = false
+								}
+							}
+							if all {
+								guarded = true
+							}
+						}
+					}
+				}
 				e, ok := cd.V.(*ssa.Extract)
 				if !ok || e.Index != 1 || cd.Truth {
 					continue
@@ -1240,4 +1491,28 @@ func nonNilResult(c *chk.Ctx, v ssa.Value, depth int) bool {
 		}
 	}
 	return true
+}
+
+// captureOnlyCond: v is decided when the handler was built, not per call: a
+// constant, or a captured variable (or a comparison of captured variables and
+// constants).
+func captureOnlyCond(v ssa.Value) (ssa.Value, bool) {
+	var fixed func(x ssa.Value, d int) bool
+	fixed = func(x ssa.Value, d int) bool {
+		if d > 4 {
+			return false
+		}
+		switch y := x.(type) {
+		case *ssa.Const:
+			return true
+		case *ssa.FreeVar:
+			return true
+		case *ssa.UnOp:
+			return fixed(y.X, d+1)
+		case *ssa.BinOp:
+			return fixed(y.X, d+1) && fixed(y.Y, d+1)
+		}
+		return false
+	}
+	return v, fixed(v, 0)
 }
